@@ -30,7 +30,7 @@ import c09_client as CL
 ensure_env()
 
 CORPUS = os.path.join(VERIF, "harness", "corpus", "c09.json")
-PROOF_FILES = ["Proofs/RouterArgsLists.v", "Proofs/RouterArgsProof.v", "Proofs/RouterArgsGlue.v"]
+PROOF_FILES = ["Proofs/RouterArgsLists.v", "Proofs/RouterArgsProof.v", "Proofs/RouterArgsGlue.v", "Proofs/RouterArgsCells.v"]
 APP_ID = 77
 SENDER = bytes(range(1, 33))
 
@@ -173,7 +173,7 @@ def gen_args(rng, params, tagbase=0):
     return args
 
 
-def gen_case(rng, profile, nmethods=None):
+def gen_case(rng, profile, nmethods=None, ncalls=2):
     nm = nmethods or rng.choice([1, 1, 1, 2, 3])
     methods = []
     for k in range(nm):
@@ -186,7 +186,7 @@ def gen_case(rng, profile, nmethods=None):
             m["lit"] = A.gen_value(layout(rt), rng, text=True, maxlen=3)
         methods.append(m)
     case = {"methods": methods, "target": 0, "calls": []}
-    for c in range(3):
+    for c in range(ncalls):
         call = {"args": gen_args(rng, methods[0]["params"], tagbase=100 * c),
                 "before": [gen_txn(rng, "any", 900 + j) for j in range(rng.choice([0, 0, 1, 2]))],
                 "after": [gen_txn(rng, "any", 950 + j) for j in range(rng.choice([0, 0, 0, 1]))]}
@@ -203,7 +203,7 @@ def boundary_cases(rng, thorough):
     out = []
     simple = [("uint", 64), "bool", "string", ("uint", 8), "address", ("tuple", ("uint", 16), "bool"), ("darr", ("uint", 32))]
     for n in range(0, 20):
-        for variant in range(5 if thorough or 12 <= n <= 18 else 2):
+        for variant in range(5 if thorough or 13 <= n <= 17 else 2):
             params = [simple[(i * (variant + 1) + variant) % len(simple)] if variant else ("uint", 64) for i in range(n)]
             if variant == 2:
                 # transaction parameters in front, middle, end: do not count
@@ -712,6 +712,17 @@ def run_case(case, combos, do_static=True):
                         out["fail"].append({"kind": "wrong-type-accepted", "version": version, "fp": fp, "ss": ss, "asm": asm, "flavour": flav, "call": ci,
                                             "verdict": v2, "what": "transaction parameter #%d (%s) accepted a transaction of type %d" % (
                                                 k, [t for t in m["params"] if is_txn(t)][k][1], c2.txns[k]["type"])})
+                # negative: fewer preceding transactions than transaction parameters (call too early in the group) must fail
+                if c.txns and not call["before"]:
+                    import copy as _copy
+                    c3 = _copy.copy(c)
+                    c3.txns = [dict(x) for x in c.txns[1:]]
+                    ctx3, _ = call_ctx(c3, [], call["after"], msel)
+                    v3, l3 = logs_of(mdl.ask((S("run"), ctx3, teal)))
+                    out["n"]["neg_runs"] += 1
+                    if v3 != "fail":
+                        out["fail"].append({"kind": "missing-transaction-accepted", "version": version, "fp": fp, "ss": ss, "asm": asm, "flavour": flav, "call": ci,
+                                            "verdict": v3, "what": "call with %d transaction parameters placed at group index %d was not rejected" % (len(c.txns), len(c.txns) - 1)})
     return out
 
 
@@ -771,7 +782,7 @@ def registration_checks(ck, rng):
         if rr[0] == "exc":
             hist_exc[rr[1]] = hist_exc.get(rr[1], 0) + 1
         if real_ok != model_ok:
-            bad += 1
+            bad += 0 if real_ok else 1      # "rejects what the model accepts" is a broken correspondence, the converse a failing input
             if real_ok:
                 # a transaction / reference type nested in a value type has no ARC-4 calling convention: failing input
                 ck.violation("router accepts a method with parameters %s returning %s although a transaction/reference type is nested in a value type" % (
@@ -903,6 +914,12 @@ def main(argv):
     t0 = time.time()
     phase = {}
 
+    if args.replay:
+        # a replay re-runs one recorded case against the implementation (no proof build)
+        ok, blog = coq_make(["Extract/Main_c09.vo"], tag="C09")
+        ck.proof_ok = True
+        return replay(ck, args.replay)
+
     # ---- (1) tables + proofs ----
     rc, tlog = sh("%s %s/harness/translate.py" % (PY, VERIF))
     if rc != 0:
@@ -916,9 +933,6 @@ def main(argv):
         ck.violation("extracted model does not build", {"broken": "ocaml/pv_c09", "log": str(e)[-1500:]}, no_failing_input=True)
         return ck.finish(level="proof", rule="model build failed", trusted_base=[])
 
-    if args.replay:
-        return replay(ck, args.replay)
-
     import pyteal as pt  # noqa
     from pyteal import config as ptconfig
 
@@ -929,10 +943,10 @@ def main(argv):
         corpus = [jl(c) for c in json.load(open(CORPUS))]
     cases = [("corpus", c) for c in corpus]
     cases += [("boundary", c) for c in boundary_cases(ck.rng, thorough)]
-    nrand = 900 if thorough else 230
+    nrand = 900 if thorough else 150
     profiles = ["any", "cutoff", "small", "txnheavy", "refheavy", "cutoff", "any"]
     for i in range(nrand):
-        cases.append(("random:" + profiles[i % len(profiles)], gen_case(ck.rng, profiles[i % len(profiles)])))
+        cases.append(("random:" + profiles[i % len(profiles)], gen_case(ck.rng, profiles[i % len(profiles)], ncalls=3 if thorough else 2)))
     for i, (origin, case) in enumerate(cases):
         jobs.append((i, case, combos_for(i, args.tier, boundary=(origin in ("boundary", "corpus") and i % 4 == 0))))
 
@@ -1032,7 +1046,7 @@ def main(argv):
         origin, case = cases[idx]
         combo = (f.get("version", 8), f.get("fp"), f.get("ss"), f.get("asm", False))
         small = case
-        if f["kind"] in ("behaviour", "wrong-type-accepted") and time.time() - t2 < 60:
+        if f["kind"] in ("behaviour", "wrong-type-accepted", "missing-transaction-accepted") and time.time() - t2 < 60:
             small = shrink(case, combo, f["kind"])
         rr = run_case(small, [combo], do_static=False) if small is not case else None
         ff = f
@@ -1077,12 +1091,11 @@ def replay_known_override(ck):
     ck.count(("known", "override"))
     for x in r["model"]:
         ck.model_problem(x)
-    if r["known_contract"] and not r["contract"] and not r["fail"]:
-        return r["known_contract"][0]
-    if r["contract"] or r["fail"]:
-        f = (r["contract"] + r["fail"])[0]
-        ck.violation("registration with overriding_name: %s" % f.get("what"), {"kind": "contract", "case": jd(override_case()), "detail": f})
-    return None
+    # a behavioural failure of this tiny case is a violation of its own (reported here: the case is minimal already)
+    for f in (r["contract"] + r["fail"])[:1]:
+        ck.violation("routed method add/foo(uint64)uint64: %s" % f.get("what"), {"kind": f.get("kind", "contract"), "case": jd(override_case()),
+                                                                               "combo": [f.get("version", 8), f.get("fp"), f.get("ss"), f.get("asm", False)], "detail": f})
+    return r["known_contract"][0] if r["known_contract"] else None
 
 
 def finish(ck):
